@@ -659,7 +659,13 @@ fn builder_spellings(st: &mut Stats, only: Option<&Value>) {
                 for iteration in 0u64..=7 {
                     let mut want = vec![];
                     ref_fires(&term, size, iteration, &mut want);
-                    let got = built.test(&start, size, iteration);
+                    let got = match std::panic::catch_unwind(std::panic::AssertUnwindSafe(|| built.test(&start, size, iteration))) {
+                        Ok(g) => g,
+                        Err(_) => {
+                            bad = Some(format!("{} at tree size {} and iteration {}: the built model panics", section, size, iteration));
+                            break 'probe;
+                        }
+                    };
                     let ok = match (&got, want.is_empty()) {
                         (Ok(()), true) => true,
                         (Err(e), false) => {
@@ -704,6 +710,35 @@ pub fn run(tier: Tier) -> i32 {
             match &r.out {
                 Outcome::Panic(p) => st.violation("runtime_limit.frequency_zero", "no_panic", 0, || p.clone(), || case_json(&w, &Algo::Dijkstra, &Orient::Vertex { o: 0, d: Some(1) }, false, json!({"limit": term}))),
                 _ => st.pass("frequency_zero_no_panic"),
+            }
+        }
+    }
+    // budgets so large that start + budget is not a representable instant: such a budget never runs out
+    {
+        use routee_compass::app::compass::config::termination_model_builder::TerminationModelBuilder;
+        use routee_compass_core::model::termination::termination_model::TerminationModel;
+        let start = std::time::Instant::now();
+        let mut models: Vec<(String, TerminationModel)> = vec![];
+        for (name, d) in [("duration_max", std::time::Duration::MAX), ("u64_max_seconds", std::time::Duration::from_secs(u64::MAX)), ("i64_max_seconds", std::time::Duration::from_secs(i64::MAX as u64)), ("two_to_the_62_seconds", std::time::Duration::from_secs(1 << 62)), ("a_year", std::time::Duration::from_secs(31_536_000))] {
+            for f in [0u64, 1, 7] {
+                models.push((format!("{}.frequency_{}", name, f), TerminationModel::QueryRuntimeLimit { limit: d, frequency: f }));
+                models.push((format!("{}.frequency_{}.combined", name, f), TerminationModel::Combined { models: vec![TerminationModel::QueryRuntimeLimit { limit: d, frequency: f }, TerminationModel::IterationsLimit { limit: 1000 }] }));
+            }
+        }
+        for text in ["3000000000000000:00:00", "2562047788015215:30:07", "100000:00:00"] {
+            if let Ok(t) = TerminationModelBuilder::build(&json!({"type": "query_runtime", "limit": text, "frequency": 1}), None) {
+                models.push((format!("configured_{}", text.split(':').next().unwrap_or("")), t));
+            }
+        }
+        for (name, t) in models.iter() {
+            st.evaluations += 1;
+            st.transitions += 8;
+            let r = std::panic::catch_unwind(std::panic::AssertUnwindSafe(|| (0u64..8).map(|i| t.test(&start, 3, i).map_err(|e| e.to_string())).collect::<Vec<_>>()));
+            let case = || json!({"kind": "huge_budget", "limit": name});
+            match r {
+                Err(_) => st.violation("runtime_limit.huge_budget", "no_panic", 0, || format!("{}: the limit test panics", name), case),
+                Ok(v) if v.iter().all(|x| x.is_ok()) => st.pass("huge_budget_does_not_fire"),
+                Ok(v) => st.violation("runtime_limit.huge_budget", "generous_runtime_limit_does_not_fire", 0, || format!("{}: {:?}", name, v.iter().find(|x| x.is_err())), case),
             }
         }
     }
